@@ -303,7 +303,13 @@ struct Dumper {
         o["loopVarId"] = declId(RS->getLoopVariable());
       }
     } else if (auto *IS = dyn_cast<IfStmt>(S)) {
-      if (IS->isConstexpr()) o["constexpr"] = true;
+      if (IS->isConstexpr()) {
+        o["constexpr"] = true;
+        bool R = false;
+        if (!IS->getCond()->isValueDependent() &&
+            IS->getCond()->EvaluateAsBooleanCondition(R, Ctx))
+          o["constCond"] = R;
+      }
       o["cond"] = stmtId(C, IS->getCond());
       o["then"] = stmtId(C, IS->getThen());
       if (IS->getElse()) o["else"] = stmtId(C, IS->getElse());
